@@ -103,27 +103,44 @@ fn c01_8a_witness_f4_zero_length_delay() {
     core::mem::forget(info); core::mem::forget(d);
 }
 
-// @ob id=C16.3c,C14.6c strength=bounded tier=quick timeout=2400 bound="a delay of 2 frames with one probe effect in its feedback loop; rates 32768 -> 65536; one 3-frame call (two sub-chunks)" fn=effect/delay.rs::<Delay as Effect>::{init,on_change_sample_rate,on_start_processing,process}
-// @req a delay whose feedback loop holds an effect
-// @ens the nested effect is initialised with the device rate, told every new rate (effects inside a delay's feedback loop process with the rate in force), started at every callback, and asked for exactly the frames the delay line hands it (once per sub-chunk, lengths summing to the input length)
-#[kani::proof]
-#[kani::unwind(8)]
-#[kani::stub(f32::powf, powf32_model)]
-fn c16_3c_delay_feedback_effects_follow_the_rate() {
+fn delay_with_probe() -> Delay {
     let (w, r) = command_writers_and_readers();
     core::mem::forget(w);
     let b = DelayBuilder { delay_time: Duration::from_secs_f64(1.0 / 16384.0 + 1.0e-9), feedback: Value::Fixed(Decibels(0.0)), feedback_effects: vec![Box::new(ProbeEffect { id: 0, gain: 0.5, add: 0.0 })], mix: Value::Fixed(Mix(1.0)) };
-    let mut d = Delay::new(b, r);
+    Delay::new(b, r)
+}
+
+// @ob id=C16.3c strength=bounded tier=quick bound="a delay of 2 frames with one probe effect in its feedback loop; rates 32768 -> 65536" fn=effect/delay.rs::<Delay as Effect>::{init,on_change_sample_rate,on_start_processing}
+// @req a delay whose feedback loop holds an effect
+// @ens the nested effect is initialised with the device rate, told every new rate (effects inside a delay's feedback loop process with the rate in force) and started at every callback
+#[kani::proof]
+#[kani::unwind(8)]
+fn c16_3c_delay_feedback_effects_follow_the_rate() {
+    let mut d = delay_with_probe();
     d.init(32768, 4);
     unsafe { assert!(PE_RATE[0] == 32768, "C16.3c: nested effects are initialised with the device rate"); }
     d.on_start_processing();
     unsafe { assert!(PE_START[0] == 1, "C16.3c: nested effects are started at every callback"); }
+    d.on_change_sample_rate(65536);
+    unsafe { assert!(PE_RATE[0] == 65536, "C16.3c: effects inside a delay's feedback loop are told the new sample rate"); }
+    assert!(d.buffer.len() == 4, "C16.3a: and the delay line is re-sized");
+    kani::cover!(true);
+    core::mem::forget(d);
+}
+
+// @ob id=C14.6c strength=bounded tier=thorough timeout=3600 bound="as C16.3c; one 3-frame call (two sub-chunks of the 2-frame line)" axioms=EXP10 fn=effect/delay.rs::<Delay as Effect>::process
+// @req a delay whose feedback loop holds an effect; one call longer than the delay line
+// @ens the feedback effects see every delayed frame exactly once (one call per sub-chunk, lengths summing to the input length)
+#[kani::proof]
+#[kani::unwind(8)]
+#[kani::stub(f32::powf, powf32_model)]
+fn c14_6c_delay_feedback_effects_see_every_frame_once() {
+    let mut d = delay_with_probe();
+    d.init(32768, 4);
     let mut a = [grid_frame(), grid_frame(), grid_frame()];
     let info = empty_info();
     d.process(&mut a, 1.0 / 32768.0, &info);
     unsafe { assert!(PE_CALLS[0] == 2 && PE_FRAMES[0] == 3, "C14.6c: the feedback effects see every delayed frame exactly once (one call per sub-chunk)"); }
-    d.on_change_sample_rate(65536);
-    unsafe { assert!(PE_RATE[0] == 65536, "C16.3c: effects inside a delay's feedback loop are told the new sample rate"); }
     kani::cover!(true);
     core::mem::forget(info); core::mem::forget(d);
 }
